@@ -6,7 +6,13 @@ package main
 
 import (
 	"bytes"
+	"context"
+	"errors"
 	"fmt"
+	"io"
+	"runtime"
+	"sync"
+	"time"
 
 	"github.com/gotd/td/bin"
 	"github.com/gotd/td/crypto"
@@ -16,6 +22,8 @@ import (
 	"verif/harness/c04shared"
 	"verif/harness/hc"
 )
+
+var t3cDur time.Duration
 
 func main() {
 	hc.Main(hc.Spec{Prop: "C04", Facts: facts, Run: run})
@@ -108,6 +116,21 @@ func run(c *hc.Ctx) error {
 			return err
 		}
 	}
+	// ---- 3c. whole request sequences through Conn.write (pooled buffers): requests whose payload fails to
+	// encode mixed with good ones, GC cycles between steps (ageing of sync.Pool), bursts of concurrent writers
+	rt.Verify(c)
+	if err := q.Flush(c); err != nil && !errors.Is(err, hc.ErrNoModel) { // small live heap: the GC cycles below stay cheap
+		return err
+	}
+	t3c := time.Now()
+	defer func() { c.Note("stage 3c (Conn.write sequences incl. GC cycles) took %.1fs of the run", t3cDur.Seconds()) }()
+	for i := c.N(100, 3000); i > 0; i-- {
+		writerSequence(c, &q)
+		if err := q.MaybeFlush(c); err != nil {
+			return err
+		}
+	}
+	t3cDur = time.Since(t3c)
 	rt.Verify(c)
 	// ---- 4. the same from 2..4 goroutines at once (every worker owns its ciphers and random reader;
 	// Cipher is a value type without shared state): round trip checked immediately, every ciphertext
@@ -148,7 +171,7 @@ func run(c *hc.Ctx) error {
 	if err := q.Flush(c); err != nil {
 		return err
 	}
-	c.Res.Rule = "countPadding: every residue l mod 16 (l = 0..63 and four large lengths) × all 256 random bytes (exhaustive for the function's case split). Round trips: every payload length 0..4096 step 4 (once in quick, ten times in thorough) + random up to 16 KiB (64 KiB thorough) + 64 KiB, 256 KiB (quick) / 1 MiB (thorough), both directions, random keys (5% all-zero/all-FF/low entropy), header fields random and at their extremes (0, ±1, min/max, sign bits), four encoder paths (Message encoder and proto.GZIP through EncodeWithoutCopy — model entry encm; raw MessageDataWithPadding and raw with a shorter declared length through Encode — model entry enc). Conn.newEncryptedMessage with threshold options −5, −1, 0 (=1024), 1, 4, 8, 64, 1023..1025, random and encoded payload lengths on and around the threshold (compressible and random payloads). Hand-made frames with padding 0..11, 12, 1024, 1028.. and length fields ≡ 1,2,3 mod 4 or negative. Every ciphertext buffer and every accepted *EncryptedMessageData is retained as returned and re-read after later calls; the round trip also runs from 2..4 goroutines at once. Non-trivial = all; distinct = distinct input line"
+	c.Res.Rule = "countPadding: every residue l mod 16 (l = 0..63 and four large lengths) × all 256 random bytes (exhaustive for the function's case split). Round trips: every payload length 0..4096 step 4 (once in quick, ten times in thorough) + random up to 16 KiB (64 KiB thorough) + 64 KiB, 256 KiB (quick) / 1 MiB (thorough), both directions, random keys (5% all-zero/all-FF/low entropy), header fields random and at their extremes (0, ±1, min/max, sign bits), four encoder paths (Message encoder and proto.GZIP through EncodeWithoutCopy — model entry encm; raw MessageDataWithPadding and raw with a shorter declared length through Encode — model entry enc). Conn.newEncryptedMessage with threshold options −5, −1, 0 (=1024), 1, 4, 8, 64, 1023..1025, random and encoded payload lengths on and around the threshold (compressible and random payloads). Conn.write sequences on one connection (8..20 steps: good requests, requests whose Encode fails after a partial write, runtime.GC() between steps, bursts of 2..4 concurrent writers with failing requests among them), every frame decrypted with the server cipher and compared with the payload and — for sequential writes — with the model. Hand-made frames with padding 0..11, 12, 1024, 1028.. and length fields ≡ 1,2,3 mod 4 or negative. Every ciphertext buffer and every accepted *EncryptedMessageData is retained as returned and re-read after later calls; the round trip also runs from 2..4 goroutines at once. Non-trivial = all; distinct = distinct input line"
 	c.PartialNote("gzip compression is a parameter of the model (law gunz(gz d) = d): the executable model is given the bytes the Go compressor produced; the monitor checks that the decrypted object gunzips to the original data; the 10 MB decompression limit of proto.GZIP.Decode is not modelled")
 	return nil
 }
@@ -341,4 +364,231 @@ func thresholdCase(c *hc.Ctx, q *c04shared.Queue, rt *c04shared.Retainer) {
 		c.Fail("roundtrip-differs", line, fmt.Sprintf("threshold path %s: %d bytes sent, %d bytes received", want, len(payload), len(data)))
 	}
 	c04shared.KeepDecrypted(rt, line, got)
+}
+
+// brokenEnc writes part of itself and then reports an encoding error, like a generated TL type with a
+// missing required field.
+type brokenEnc struct{ partial []byte }
+
+func (b brokenEnc) Encode(buf *bin.Buffer) error {
+	buf.Put(b.partial)
+	return errors.New("unable to encode: field is nil")
+}
+
+// recReader hands out PRNG bytes and records them (the model needs exactly the bytes the cipher read).
+type recReader struct {
+	mu  sync.Mutex
+	r   *hc.RNG
+	rec []byte
+}
+
+func (rr *recReader) Read(p []byte) (int, error) {
+	rr.mu.Lock()
+	defer rr.mu.Unlock()
+	n, err := io.ReadFull(rr.r, p)
+	rr.rec = append(rr.rec, p[:n]...)
+	return n, err
+}
+
+func (rr *recReader) take() []byte {
+	rr.mu.Lock()
+	defer rr.mu.Unlock()
+	b := rr.rec
+	rr.rec = nil
+	return b
+}
+
+func joinSteps(h []string) string {
+	s := ""
+	for i, x := range h {
+		if i > 0 {
+			s += " "
+		}
+		s += x
+	}
+	return s
+}
+
+// writerSequence drives one connection through a sequence of writes.  Error paths must not corrupt
+// shared pools or state: every frame written after (or concurrently with) a failed request must still
+// decrypt on the other side to exactly the header and payload that were sent.
+func writerSequence(c *hc.Ctx, q *c04shared.Queue) {
+	r := c.Rng
+	opt := hc.Pick(r, 0, 0, 1024, 64, 256, 16, -1)
+	eff := opt
+	if eff == 0 {
+		eff = 1024
+	}
+	key := c04shared.GenKey(r)
+	ak := key.WithID()
+	sid, salt := int64(r.U64()), int64(r.U64())
+	rr := &recReader{r: r.Fork()}
+	w := mtproto.VerifC04NewWriter(mtproto.Options{CompressThreshold: opt, Cipher: crypto.NewClientCipher(rr), Random: r.Fork()}, ak, sid, salt)
+	defer w.CloseConn()
+	server := crypto.NewServerCipher(nil)
+	ctx := context.Background()
+	history := []string{fmt.Sprintf("threshold=%d", opt)}
+	mkPayload := func(r *hc.RNG) []byte {
+		n := 4 * r.Range(0, 80)
+		if eff > 0 && r.Chance(60) {
+			n = max(0, 4*((eff+hc.Pick(r, -8, -4, 0, 4, 8, 64, 400))/4))
+		}
+		if r.Bool() {
+			return bytes.Repeat(r.Bytes(4), n/4)
+		}
+		return r.Bytes(n)
+	}
+	// verify one frame against what was sent
+	verify := func(frame []byte, sent map[int64][]byte, seqs map[int64]int32, how string) (int64, bool) {
+		got, err := server.DecryptFromBuffer(ak, &bin.Buffer{Buf: append([]byte{}, frame...)})
+		input := fmt.Sprintf("frame %s key %s   [Conn.write sequence: %s]", hc.Hex(frame), hc.Hex(key[:]), joinSteps(history))
+		if err != nil {
+			c.Fail("written-message-rejected", input, how+": "+err.Error())
+			return 0, false
+		}
+		payload, known := sent[got.MessageID]
+		if !known || got.Salt != salt || got.SessionID != sid || got.SeqNo != seqs[got.MessageID] {
+			c.Fail("written-message-differs-from-payload", input, fmt.Sprintf("%s: header fields differ (msg_id %d known=%v)", how, got.MessageID, known))
+			return got.MessageID, false
+		}
+		data := got.Data()
+		if id, _ := (&bin.Buffer{Buf: data}).PeekID(); id == proto.GZIPTypeID && eff > 0 && len(payload) > eff {
+			var g proto.GZIP
+			if err := g.Decode(&bin.Buffer{Buf: append([]byte{}, data...)}); err != nil {
+				c.Fail("written-message-differs-from-payload", input, fmt.Sprintf("%s: %d bytes sent, gzip payload does not unpack: %v", how, len(payload), err))
+				return got.MessageID, false
+			}
+			data = g.Data
+		}
+		if !bytes.Equal(data, payload) {
+			c.Fail("written-message-differs-from-payload", input, fmt.Sprintf("%s: sent %d bytes %s…, the other side decrypts %d bytes %s…", how, len(payload), hc.Hex(payload[:min(24, len(payload))]), len(data), hc.Hex(data[:min(24, len(data))])))
+			return got.MessageID, false
+		}
+		return got.MessageID, true
+	}
+	// a corrupted pool can make the write path panic (e.g. IGE on a buffer another writer is filling)
+	write := func(id int64, seq int32, enc bin.Encoder) (err error, p any) {
+		defer func() { p = recover() }()
+		return w.Write(ctx, id, seq, enc), nil
+	}
+	steps := r.Range(8, 20)
+	nextID := int64(r.U64() >> 8)
+	for s := 0; s < steps; s++ {
+		switch k := r.Intn(10); {
+		case k < 2: // a request that fails to serialise
+			history = append(history, "fail")
+			c.Count("writer.step=encode-error")
+			rr.take()
+			if err, p := write(nextID, int32(2*s+1), brokenEnc{r.Bytes(4 * r.Range(0, 40))}); err == nil || p != nil {
+				c.Fail("encode-error-swallowed", joinSteps(history), fmt.Sprintf("Conn.write for a payload whose Encode failed: err=%v panic=%v", err, p))
+			}
+			if fs := w.Frames(); len(fs) != 0 {
+				c.Fail("frame-sent-for-failed-request", joinSteps(history), fmt.Sprintf("%d frames", len(fs)))
+			}
+			nextID++
+			if r.Bool() { // the pool ages right after the failed request
+				history = append(history, "gc")
+				c.Count("writer.step=gc")
+				runtime.GC()
+			}
+		case k < 3:
+			history = append(history, "gc")
+			c.Count("writer.step=gc")
+			runtime.GC()
+		case k < 4: // burst of concurrent writers, some of them failing
+			n := r.Range(2, 4)
+			history = append(history, fmt.Sprintf("burst%d", n))
+			c.Count("writer.step=concurrent-burst")
+			sent, seqs := map[int64][]byte{}, map[int64]int32{}
+			type job struct {
+				id   int64
+				seq  int32
+				enc  bin.Encoder
+				fail bool
+			}
+			var jobs [][]job
+			for g := 0; g < n; g++ {
+				var js []job
+				for j := r.Range(1, 3); j > 0; j-- {
+					nextID++
+					if r.Chance(25) {
+						js = append(js, job{nextID, 1, brokenEnc{r.Bytes(8)}, true})
+						continue
+					}
+					p := mkPayload(r)
+					sent[nextID], seqs[nextID] = p, int32(2*j)
+					js = append(js, job{nextID, int32(2 * j), rawEnc(p), false})
+				}
+				jobs = append(jobs, js)
+			}
+			var wg sync.WaitGroup
+			for _, js := range jobs {
+				wg.Add(1)
+				go func(js []job) {
+					defer wg.Done()
+					for _, j := range js {
+						err, p := write(j.id, j.seq, j.enc)
+						if p != nil {
+							c.Fail("write-panic", fmt.Sprintf("msg_id %d, one of %d concurrent writers [Conn.write sequence: %s] key %s", j.id, n, joinSteps(history), hc.Hex(key[:])), fmt.Sprint(p))
+						} else if (err != nil) != j.fail {
+							c.Fail("concurrent-write-error", fmt.Sprintf("msg_id %d [%s]", j.id, joinSteps(history)), fmt.Sprint(err))
+						}
+					}
+				}(js)
+			}
+			wg.Wait()
+			rr.take()
+			seen := map[int64]bool{}
+			for _, f := range w.Frames() {
+				if id, ok := verify(f, sent, seqs, fmt.Sprintf("one of %d concurrent writers", n)); ok {
+					seen[id] = true
+				}
+			}
+			if len(seen) != len(sent) {
+				c.Fail("written-message-differs-from-payload", joinSteps(history), fmt.Sprintf("%d of %d concurrently written messages arrived intact", len(seen), len(sent)))
+			}
+			nextID++
+		default: // a good request, compared with the model too
+			p := mkPayload(r)
+			history = append(history, fmt.Sprintf("ok%d", len(p)))
+			c.Count("writer.step=ok")
+			rr.take()
+			seq := int32(r.U64())
+			nextID++
+			if err, pn := write(nextID, seq, rawEnc(p)); err != nil || pn != nil {
+				key2 := "write-error"
+				if pn != nil {
+					key2 = "write-panic"
+				}
+				c.Fail(key2, fmt.Sprintf("payload %s [Conn.write sequence: %s] key %s", hc.Hex(p), joinSteps(history), hc.Hex(key[:])), fmt.Sprintf("err=%v panic=%v", err, pn))
+				w.Frames()
+				continue
+			}
+			rnd := rr.take()
+			fs := w.Frames()
+			if len(fs) != 1 {
+				c.Fail("write-frame-count", joinSteps(history), fmt.Sprintf("%d frames for one write", len(fs)))
+				continue
+			}
+			verify(fs[0], map[int64][]byte{nextID: p}, map[int64]int32{nextID: seq}, "sequential write")
+			want := "raw"
+			switch {
+			case eff <= 0:
+				want = "message"
+			case len(p) > eff:
+				want = "gzip"
+			}
+			gz := []byte(nil)
+			if want == "gzip" {
+				var gb bin.Buffer
+				if err := (proto.GZIP{Data: p}).Encode(&gb); err == nil && gb.ConsumeID(proto.GZIPTypeID) == nil {
+					gz, _ = gb.Bytes()
+				}
+			}
+			line := fmt.Sprintf("newmsg c %s %s %d %d %d %d %d %s %s %s", hc.Hex(key[:]), hc.Hex(ak.ID[:]), opt,
+				uint64(salt), uint64(sid), uint64(nextID), uint32(seq), hc.Hex(p), hc.Hex(gz), hc.Hex(rnd))
+			c.Eval("writer "+c04shared.Sig(line), true)
+			q.Add(line, "ok "+want+" "+hc.Hex(fs[0]))
+		}
+	}
 }
